@@ -20,7 +20,30 @@ var log = logging.Logger("autoconf")
 
 // writeOwnerOnlyFile writes data to a file with owner-only permissions (0600)
 func writeOwnerOnlyFile(filename string, data []byte) error {
-	return os.WriteFile(filename, data, filePermOwnerReadWrite)
+	// write to a temporary file in the same directory and rename it into place, so that a crash or a full
+	// disk never leaves a truncated file under the final name
+	tmp, err := os.CreateTemp(filepath.Dir(filename), ".tmp-"+filepath.Base(filename)+"-*")
+	if err != nil {
+		return err
+	}
+	tmpName := tmp.Name()
+	_, err = tmp.Write(data)
+	if err == nil {
+		err = tmp.Chmod(filePermOwnerReadWrite)
+	}
+	if err == nil {
+		err = tmp.Sync()
+	}
+	if cerr := tmp.Close(); err == nil {
+		err = cerr
+	}
+	if err == nil {
+		err = os.Rename(tmpName, filename)
+	}
+	if err != nil {
+		_ = os.Remove(tmpName)
+	}
+	return err
 }
 
 const (
